@@ -13,6 +13,8 @@ import ScoresVerif.Spec.Discretise
 import ScoresVerif.Lemmas.FlBasic
 import ScoresVerif.Lemmas.Discretise
 
+set_option linter.unusedSimpArgs false
+
 namespace SV.Props.C08
 open SV SV.Fl SV.DiscL
 open SV.Spec.Discretise (Rel holds near disc event Counts countBy countSpec countEvents bothValid)
@@ -43,15 +45,513 @@ theorem tol_none_eq_zero (d c : Fl) (m : PyMode) :
     comparative_discretise d c m none = comparative_discretise d c m (some (fin 0)) := by
   rw [cd_some d c m 0 (le_refl 0)]; unfold comparative_discretise; rw [san_none]; rfl
 
+private theorem ite_ok {P Q : Prop} [Decidable P] [Decidable Q] (h : P ↔ Q) :
+    (pure (if P then fin 1 else fin 0) : Except String Fl) = .ok (if Q then fin 1 else fin 0) := by
+  simp only [h]; rfl
+
+private theorem keys_ge : PyMode.inKeys (.str ">=") INEQUALITY_MODES = true := by decide
+private theorem keys_gt : PyMode.inKeys (.str ">") INEQUALITY_MODES = true := by decide
+private theorem keys_le : PyMode.inKeys (.str "<=") INEQUALITY_MODES = true := by decide
+private theorem keys_lt : PyMode.inKeys (.str "<") INEQUALITY_MODES = true := by decide
+private theorem keys_eq : PyMode.inKeys (.str "==") INEQUALITY_MODES = false := by decide
+private theorem keys_ne : PyMode.inKeys (.str "!=") INEQUALITY_MODES = false := by decide
+private theorem ekeys_eq : PyMode.inKeys (.str "==") EQUALITY_MODES = true := by decide
+private theorem ekeys_ne : PyMode.inKeys (.str "!=") EQUALITY_MODES = true := by decide
+private theorem look_ge : PyMode.lookup (.str ">=") INEQUALITY_MODES = (PyOp.ge, neg (fin 1)) := by decide
+private theorem look_gt : PyMode.lookup (.str ">") INEQUALITY_MODES = (PyOp.gt, fin 1) := by decide
+private theorem look_le : PyMode.lookup (.str "<=") INEQUALITY_MODES = (PyOp.le, fin 1) := by decide
+private theorem look_lt : PyMode.lookup (.str "<") INEQUALITY_MODES = (PyOp.lt, neg (fin 1)) := by decide
+private theorem look_eq : PyMode.lookup (.str "==") EQUALITY_MODES = PyOp.le := by decide
+private theorem look_ne : PyMode.lookup (.str "!=") EQUALITY_MODES = PyOp.gt := by decide
+
 theorem mode_table_ge (x c t : Rat) (ht : 0 ≤ t) :
     comparative_discretise (fin x) (fin c) (.str ">=") (some (fin t)) = .ok (ofBool (holds .ge x c t)) := by
-  rw [cd_some _ _ _ t ht]
-  have h1 : PyMode.inKeys (.str ">=") INEQUALITY_MODES = true := by decide
-  have h2 : PyMode.lookup (.str ">=") INEQUALITY_MODES = (PyOp.ge, neg (fin 1)) := by decide
-  unfold comparative_discretise_kernel
-  simp only [h1, h2, if_true]
+  rw [cd_some _ _ _ t ht]; unfold comparative_discretise_kernel
+  simp only [keys_ge, look_ge, if_true]
   simp [PyOp.apply, whereB, holds, notNan, isNan, ofBool]
-  trace_state
-  sorry
+  apply ite_ok; rw [near_iff]
+  constructor
+  · intro h; by_cases h' : c < x
+    · exact Or.inl h'
+    · exact Or.inr ⟨by linarith, by linarith⟩
+  · rintro (h | ⟨h, _⟩) <;> linarith
+
+theorem mode_table_gt (x c t : Rat) (ht : 0 ≤ t) :
+    comparative_discretise (fin x) (fin c) (.str ">") (some (fin t)) = .ok (ofBool (holds .gt x c t)) := by
+  rw [cd_some _ _ _ t ht]; unfold comparative_discretise_kernel
+  simp only [keys_gt, look_gt, if_true]
+  simp [PyOp.apply, whereB, holds, notNan, isNan, ofBool]
+  apply ite_ok; rw [← Bool.not_eq_true, near_iff]
+  constructor
+  · intro h; exact ⟨by linarith, fun ⟨_, h2⟩ => by linarith⟩
+  · rintro ⟨h1, h2⟩; by_contra h3; exact h2 ⟨by linarith, by linarith⟩
+
+theorem mode_table_le (x c t : Rat) (ht : 0 ≤ t) :
+    comparative_discretise (fin x) (fin c) (.str "<=") (some (fin t)) = .ok (ofBool (holds .le x c t)) := by
+  rw [cd_some _ _ _ t ht]; unfold comparative_discretise_kernel
+  simp only [keys_le, look_le, if_true]
+  simp [PyOp.apply, whereB, holds, notNan, isNan, ofBool]
+  apply ite_ok; rw [near_iff]
+  constructor
+  · intro h; by_cases h' : x < c
+    · exact Or.inl h'
+    · exact Or.inr ⟨by linarith, by linarith⟩
+  · rintro (h | ⟨_, h⟩) <;> linarith
+
+theorem mode_table_lt (x c t : Rat) (ht : 0 ≤ t) :
+    comparative_discretise (fin x) (fin c) (.str "<") (some (fin t)) = .ok (ofBool (holds .lt x c t)) := by
+  rw [cd_some _ _ _ t ht]; unfold comparative_discretise_kernel
+  simp only [keys_lt, look_lt, if_true]
+  simp [PyOp.apply, whereB, holds, notNan, isNan, ofBool]
+  apply ite_ok; rw [← Bool.not_eq_true, near_iff]
+  constructor
+  · intro h; exact ⟨by linarith, fun ⟨h2, _⟩ => by linarith⟩
+  · rintro ⟨h1, h2⟩; by_contra h3; exact h2 ⟨by linarith, by linarith⟩
+
+theorem mode_table_eq (x c t : Rat) (ht : 0 ≤ t) :
+    comparative_discretise (fin x) (fin c) (.str "==") (some (fin t)) = .ok (ofBool (holds .eq x c t)) := by
+  rw [cd_some _ _ _ t ht]; unfold comparative_discretise_kernel
+  simp only [keys_eq, ekeys_eq, look_eq, if_true]
+  simp [PyOp.apply, whereB, holds, notNan, isNan, ofBool]
+  apply ite_ok; rw [near_iff, abs_le]
+
+theorem mode_table_ne (x c t : Rat) (ht : 0 ≤ t) :
+    comparative_discretise (fin x) (fin c) (.str "!=") (some (fin t)) = .ok (ofBool (holds .ne x c t)) := by
+  rw [cd_some _ _ _ t ht]; unfold comparative_discretise_kernel
+  simp only [keys_ne, ekeys_ne, look_ne, if_true]
+  simp [PyOp.apply, whereB, holds, notNan, isNan, ofBool]
+  apply ite_ok; rw [← Bool.not_eq_true, near_iff, ← abs_le, not_le]
+
+/-- the whole relation table at once (string spelling) -/
+theorem mode_table (r : Rel) (x c t : Rat) (ht : 0 ≤ t) :
+    comparative_discretise (fin x) (fin c) (.str r.str) (some (fin t)) = .ok (ofBool (holds r x c t)) := by
+  cases r
+  · exact mode_table_ge x c t ht
+  · exact mode_table_gt x c t ht
+  · exact mode_table_le x c t ht
+  · exact mode_table_lt x c t ht
+  · exact mode_table_eq x c t ht
+  · exact mode_table_ne x c t ht
+
+example : (0 : Rat) ≤ 1/4 := by norm_num
+example : comparative_discretise (fin (3/4)) (fin 1) (.str ">=") (some (fin (1/4))) = .ok (fin 1) := by
+  rw [mode_table_ge _ _ _ (by norm_num)]; decide +kernel
+
+/-! ## 2. The two spellings of each mode are the same function — for ALL data and comparison values
+    (NaN, infinities) and every `abs_tolerance` argument (absent, negative, NaN, …). -/
+
+section spelling
+variable (d c : Fl) (tol : Option Fl)
+
+private theorem spelling_aux (s : String) (o : PyOp)
+    (h : ∀ t, comparative_discretise_kernel d c (.str s) t = comparative_discretise_kernel d c (.op o) t) :
+    comparative_discretise d c (.str s) tol = comparative_discretise d c (.op o) tol := by
+  unfold comparative_discretise
+  cases abs_tolerance_sanitised tol with
+  | error e => rfl
+  | ok t => exact h t
+
+theorem string_eq_operator_ge : comparative_discretise d c (.str ">=") tol = comparative_discretise d c (.op .ge) tol := by
+  apply spelling_aux; intro t; unfold comparative_discretise_kernel
+  simp only [keys_ge, look_ge, if_true]
+  simp [PyMode.inKeys, PyMode.isOp, PyMode.inOps, PyMode.call]
+
+theorem string_eq_operator_gt : comparative_discretise d c (.str ">") tol = comparative_discretise d c (.op .gt) tol := by
+  apply spelling_aux; intro t; unfold comparative_discretise_kernel
+  simp only [keys_gt, look_gt, if_true]
+  simp [PyMode.inKeys, PyMode.isOp, PyMode.inOps, PyMode.call]
+
+theorem string_eq_operator_le : comparative_discretise d c (.str "<=") tol = comparative_discretise d c (.op .le) tol := by
+  apply spelling_aux; intro t; unfold comparative_discretise_kernel
+  simp only [keys_le, look_le, if_true]
+  simp [PyMode.inKeys, PyMode.isOp, PyMode.inOps, PyMode.call]
+
+theorem string_eq_operator_lt : comparative_discretise d c (.str "<") tol = comparative_discretise d c (.op .lt) tol := by
+  apply spelling_aux; intro t; unfold comparative_discretise_kernel
+  simp only [keys_lt, look_lt, if_true]
+  simp [PyMode.inKeys, PyMode.isOp, PyMode.inOps, PyMode.call]
+
+theorem string_eq_operator_eq : comparative_discretise d c (.str "==") tol = comparative_discretise d c (.op .eq) tol := by
+  apply spelling_aux; intro t; unfold comparative_discretise_kernel
+  simp only [keys_eq, ekeys_eq, look_eq, if_true]
+  simp [PyMode.inKeys, PyMode.isOp, PyMode.inOps, PyMode.call]
+
+theorem string_eq_operator_ne : comparative_discretise d c (.str "!=") tol = comparative_discretise d c (.op .ne) tol := by
+  apply spelling_aux; intro t; unfold comparative_discretise_kernel
+  simp only [keys_ne, ekeys_ne, look_ne, if_true]
+  simp [PyMode.inKeys, PyMode.isOp, PyMode.inOps, PyMode.call]
+
+theorem string_eq_operator (r : Rel) :
+    comparative_discretise d c (.str r.str) tol = comparative_discretise d c (.op r.op) tol := by
+  cases r
+  · exact string_eq_operator_ge d c tol
+  · exact string_eq_operator_gt d c tol
+  · exact string_eq_operator_le d c tol
+  · exact string_eq_operator_lt d c tol
+  · exact string_eq_operator_eq d c tol
+  · exact string_eq_operator_ne d c tol
+
+end spelling
+
+/-- the relation table for the operator spelling -/
+theorem mode_table_op (r : Rel) (x c t : Rat) (ht : 0 ≤ t) :
+    comparative_discretise (fin x) (fin c) (.op r.op) (some (fin t)) = .ok (ofBool (holds r x c t)) := by
+  rw [← string_eq_operator]; exact mode_table r x c t ht
+
+/-- …and the implementation agrees with the property's definition `Spec.disc` on finite data -/
+theorem disc_eq_spec (r : Rel) (x c t : Rat) (ht : 0 ≤ t) :
+    (comparative_discretise (fin x) (fin c) (.str r.str) (some (fin t))).toOption = disc r (fin x) (fin c) t := by
+  rw [mode_table r x c t ht]; rfl
+
+/-! ## 3. NaN in, NaN out; complementary relations sum to 1; guards. -/
+
+/-- whatever the (valid) mode and tolerance: NaN data gives NaN -/
+theorem nan_data (c : Fl) (r : Rel) (tol : Option Fl) (v : Fl)
+    (h : comparative_discretise nan c (.str r.str) tol = .ok v) : v = nan := by
+  unfold comparative_discretise at h
+  cases hs : abs_tolerance_sanitised tol with
+  | error e => rw [hs] at h; cases h
+  | ok t =>
+    rw [hs] at h
+    cases r <;>
+      simp [Except.bind, comparative_discretise_kernel, Rel.str, keys_ge, keys_gt, keys_le, keys_lt, keys_eq, keys_ne,
+        ekeys_eq, ekeys_ne, whereB, notNan, isNan, pure, Except.pure] at h <;> exact h.symm
+
+/-- …and a NaN threshold gives NaN -/
+theorem nan_comparison (d : Fl) (r : Rel) (tol : Option Fl) (v : Fl)
+    (h : comparative_discretise d nan (.str r.str) tol = .ok v) : v = nan := by
+  unfold comparative_discretise at h
+  cases hs : abs_tolerance_sanitised tol with
+  | error e => rw [hs] at h; cases h
+  | ok t =>
+    rw [hs] at h
+    cases r <;>
+      simp [Except.bind, comparative_discretise_kernel, Rel.str, keys_ge, keys_gt, keys_le, keys_lt, keys_eq, keys_ne,
+        ekeys_eq, ekeys_ne, whereB, notNan, isNan, pure, Except.pure] at h <;> exact h.symm
+
+example : comparative_discretise nan (fin 1) (.str ">=") none = .ok nan := by decide +kernel
+
+private theorem holds_compl (r : Rel) (x c t : Rat) (ht : 0 ≤ t) : holds r.compl x c t = !holds r x c t := by
+  have hAB : ¬(c < x ∧ x < c) := fun ⟨a, b⟩ => lt_asymm a b
+  have hN : ¬ c < x → ¬ x < c → near x c t = true := by
+    intro a b
+    have : x = c := le_antisymm (not_lt.mp a) (not_lt.mp b)
+    subst this; simp [near, rabs]; exact ht
+  cases r <;> simp only [holds, Rel.compl] <;> by_cases a : c < x <;> by_cases b : x < c <;>
+    cases hn : near x c t <;> simp_all
+
+/-- complementary relations (`>=`/`<`, `>`/`<=`, `==`/`!=`) classify every finite datum exactly once:
+    the two discretised values are 0/1 and sum to 1 -/
+theorem complementary_sum_one (r : Rel) (x c t : Rat) (ht : 0 ≤ t) :
+    ∃ a b : Fl, comparative_discretise (fin x) (fin c) (.str r.str) (some (fin t)) = .ok a ∧
+      comparative_discretise (fin x) (fin c) (.str r.compl.str) (some (fin t)) = .ok b ∧
+      add a b = fin 1 ∧ (a = fin 0 ∨ a = fin 1) := by
+  refine ⟨_, _, mode_table r x c t ht, mode_table r.compl x c t ht, ?_, ?_⟩
+  · rw [holds_compl r x c t ht]; cases holds r x c t <;> simp [ofBool]
+  · cases holds r x c t <;> simp [ofBool]
+
+/-- a negative tolerance is rejected whatever the mode and data -/
+theorem negative_tolerance_rejected (d c : Fl) (m : PyMode) (t : Rat) (ht : t < 0) :
+    comparative_discretise d c m (some (fin t)) = .error "ValueError" := by
+  unfold comparative_discretise abs_tolerance_sanitised; simp [ht]; rfl
+
+example : (-1/4 : Rat) < 0 := by norm_num
+
+/-- a mode outside the 12 spellings is rejected: another string, another object -/
+theorem unknown_mode_rejected (d c : Fl) (t : Rat) (ht : 0 ≤ t) :
+    comparative_discretise d c .other (some (fin t)) = .error "ValueError" ∧
+    comparative_discretise d c (.str "=>") (some (fin t)) = .error "ValueError" := by
+  constructor
+  · rw [cd_some _ _ _ t ht]; simp [comparative_discretise_kernel, PyMode.inKeys, PyMode.isOp, PyMode.inOps]; rfl
+  · rw [cd_some _ _ _ t ht]
+    have h1 : PyMode.inKeys (.str "=>") INEQUALITY_MODES = false := by decide
+    have h2 : PyMode.inKeys (.str "=>") EQUALITY_MODES = false := by decide
+    simp [comparative_discretise_kernel, h1, h2, PyMode.isOp, PyMode.inOps]; rfl
+
+/-! ## 4. The four maps of `BinaryContingencyManager` on event arrays (values 1 = event, 0 = no event,
+    NaN = missing): each map is the direct indicator, they are pairwise disjoint and cover. -/
+
+/-- an event value -/
+def IsEv (x : Fl) : Prop := x = fin 0 ∨ x = fin 1 ∨ x = nan
+
+theorem map_tp_indicator (f o : Fl) (hf : IsEv f) (ho : IsEv o) :
+    map_tp f o = if bothValid (f, o) then ofBool (beq f (fin 1) && beq o (fin 1)) else nan := by
+  rcases hf with rfl | rfl | rfl <;> rcases ho with rfl | rfl | rfl <;> decide +kernel
+theorem map_tn_indicator (f o : Fl) (hf : IsEv f) (ho : IsEv o) :
+    map_tn f o = if bothValid (f, o) then ofBool (beq f (fin 0) && beq o (fin 0)) else nan := by
+  rcases hf with rfl | rfl | rfl <;> rcases ho with rfl | rfl | rfl <;> decide +kernel
+theorem map_fp_indicator (f o : Fl) (hf : IsEv f) (ho : IsEv o) :
+    map_fp f o = if bothValid (f, o) then ofBool (beq f (fin 1) && beq o (fin 0)) else nan := by
+  rcases hf with rfl | rfl | rfl <;> rcases ho with rfl | rfl | rfl <;> decide +kernel
+theorem map_fn_indicator (f o : Fl) (hf : IsEv f) (ho : IsEv o) :
+    map_fn f o = if bothValid (f, o) then ofBool (beq f (fin 0) && beq o (fin 1)) else nan := by
+  rcases hf with rfl | rfl | rfl <;> rcases ho with rfl | rfl | rfl <;> decide +kernel
+
+example : IsEv (fin 1) ∧ IsEv nan := ⟨Or.inr (Or.inl rfl), Or.inr (Or.inr rfl)⟩
+
+/-- a missing forecast or observation is missing in all four maps -/
+theorem maps_nan (f o : Fl) (hf : IsEv f) (ho : IsEv o) (h : bothValid (f, o) = false) :
+    map_tp f o = nan ∧ map_tn f o = nan ∧ map_fp f o = nan ∧ map_fn f o = nan := by
+  simp [map_tp_indicator f o hf ho, map_tn_indicator f o hf ho, map_fp_indicator f o hf ho, map_fn_indicator f o hf ho, h]
+
+/-- the four maps are pairwise disjoint: no pair is counted in two cells -/
+theorem maps_disjoint (f o : Fl) (hf : IsEv f) (ho : IsEv o) :
+    ¬(map_tp f o = fin 1 ∧ map_tn f o = fin 1) ∧ ¬(map_tp f o = fin 1 ∧ map_fp f o = fin 1) ∧
+    ¬(map_tp f o = fin 1 ∧ map_fn f o = fin 1) ∧ ¬(map_tn f o = fin 1 ∧ map_fp f o = fin 1) ∧
+    ¬(map_tn f o = fin 1 ∧ map_fn f o = fin 1) ∧ ¬(map_fp f o = fin 1 ∧ map_fn f o = fin 1) := by
+  rcases hf with rfl | rfl | rfl <;> rcases ho with rfl | rfl | rfl <;> decide +kernel
+
+/-- the four maps cover: a valid pair is in exactly one cell -/
+theorem maps_cover (f o : Fl) (hf : f = fin 0 ∨ f = fin 1) (ho : o = fin 0 ∨ o = fin 1) :
+    add (add (add (map_tp f o) (map_tn f o)) (map_fp f o)) (map_fn f o) = fin 1 := by
+  rcases hf with rfl | rfl <;> rcases ho with rfl | rfl <;> decide +kernel
+
+example : (fin 1 : Fl) = fin 0 ∨ (fin 1 : Fl) = fin 1 := Or.inr rfl
+
+/-! ## 5. Events of the threshold operator: `op x thr` for EVERY supplied threshold (0 and negative included). -/
+
+theorem events_eq_op (dthr : Fl) (dop o : PyOp) (thr f ob : Fl) :
+    events_make_contingency_manager dthr dop f ob (some thr) (some o) = (event o thr f, event o thr ob) := by
+  unfold events_make_contingency_manager event
+  cases f <;> cases ob <;> simp [whereB, isNan]
+
+theorem events_tables_eq_op (dthr : Fl) (dop o : PyOp) (thr f ob : Fl) :
+    events_make_event_tables dthr dop f ob (some thr) (some o) = (event o thr f, event o thr ob) := by
+  unfold events_make_event_tables event
+  cases f <;> cases ob <;> simp [whereB, isNan]
+
+/-- the defaults are used exactly when nothing is supplied -/
+theorem events_defaults (dthr : Fl) (dop : PyOp) (f ob : Fl) :
+    events_make_contingency_manager dthr dop f ob none none = (event dop dthr f, event dop dthr ob) ∧
+    events_make_event_tables dthr dop f ob none none = (event dop dthr f, event dop dthr ob) := by
+  unfold events_make_contingency_manager events_make_event_tables event
+  cases f <;> cases ob <;> simp [whereB, isNan]
+
+/-- threshold 0 is a threshold like any other (defect F4 of the pinned tree, repaired) -/
+example : events_make_contingency_manager (fin (1/1000)) .ge (fin 0) (fin (1/2000)) (some (fin 0)) none = (fin 1, fin 1) := by
+  decide +kernel
+
+/-- events are 0, 1 or NaN, and NaN exactly for missing data -/
+theorem event_values (o : PyOp) (thr x : Fl) :
+    (x = nan ∧ event o thr x = nan) ∨ (x ≠ nan ∧ (event o thr x = fin 0 ∨ event o thr x = fin 1)) := by
+  unfold event
+  cases x <;> simp [isNan, ofBool]
+
+/-! ## 6. Counts: each count is the direct count, the cells partition the pairs valid in both, counts are
+    additive under concatenation (so counts kept along a dimension sum to the fully reduced counts).
+    Lists of ANY length. -/
+
+def Table.ofCounts (c : Counts) : Table :=
+  { tp := fin (c.tp : Rat), tn := fin (c.tn : Rat), fp := fin (c.fp : Rat), fn := fin (c.fn : Rat), total := fin (c.total : Rat) }
+
+/-- the four cells partition the pairs that are valid in both (pure counting fact about `countBy`) -/
+theorem countBy_partition (f o : Fl × Fl → Bool) (ps : List (Fl × Fl)) :
+    (countBy f o ps).tp + (countBy f o ps).tn + (countBy f o ps).fp + (countBy f o ps).fn = (countBy f o ps).total := by
+  unfold countBy
+  simp only
+  induction ps with
+  | nil => rfl
+  | cons p ps ih =>
+    simp only [List.filter_cons]
+    cases bothValid p <;> cases f p <;> cases o p <;> simp <;> omega
+
+/-- counts of BinaryContingencyManager on event arrays of any length: each cell is the number of valid pairs
+    showing exactly that combination -/
+theorem event_counts_direct (es : List (Fl × Fl)) (hev : ∀ e ∈ es, IsEv e.1 ∧ IsEv e.2) :
+    (tableOfEvents es).tp = fin (((es.filter fun e => bothValid e && (beq e.1 (fin 1) && beq e.2 (fin 1))).length : Nat) : Rat) ∧
+    (tableOfEvents es).tn = fin (((es.filter fun e => bothValid e && (beq e.1 (fin 0) && beq e.2 (fin 0))).length : Nat) : Rat) ∧
+    (tableOfEvents es).fp = fin (((es.filter fun e => bothValid e && (beq e.1 (fin 1) && beq e.2 (fin 0))).length : Nat) : Rat) ∧
+    (tableOfEvents es).fn = fin (((es.filter fun e => bothValid e && (beq e.1 (fin 0) && beq e.2 (fin 1))).length : Nat) : Rat) := by
+  unfold tableOfEvents
+  refine ⟨?_, ?_, ?_, ?_⟩
+  · exact nansum_indicator_mem _ bothValid _ es (fun e he => map_tp_indicator e.1 e.2 (hev e he).1 (hev e he).2)
+  · exact nansum_indicator_mem _ bothValid _ es (fun e he => map_tn_indicator e.1 e.2 (hev e he).1 (hev e he).2)
+  · exact nansum_indicator_mem _ bothValid _ es (fun e he => map_fp_indicator e.1 e.2 (hev e he).1 (hev e he).2)
+  · exact nansum_indicator_mem _ bothValid _ es (fun e he => map_fn_indicator e.1 e.2 (hev e he).1 (hev e he).2)
+
+example : ∀ e ∈ [((fin 1 : Fl), (fin 0 : Fl)), (nan, fin 1)], IsEv e.1 ∧ IsEv e.2 := by
+  intro e he; simp at he; rcases he with rfl | rfl <;> simp [IsEv]
+
+private theorem isEv_event (o : PyOp) (thr x : Fl) : IsEv (event o thr x) := by
+  rcases event_values o thr x with ⟨_, h⟩ | ⟨_, h | h⟩
+  · exact Or.inr (Or.inr h)
+  · exact Or.inl h
+  · exact Or.inr (Or.inl h)
+
+private theorem bothValid_event (o : PyOp) (thr : Fl) (p : Fl × Fl) :
+    bothValid (event o thr p.1, event o thr p.2) = bothValid p := by
+  obtain ⟨a, b⟩ := p
+  unfold bothValid event
+  cases a <;> cases b <;> simp [isNan, notNan, ofBool] <;> split_ifs <;> simp [isNan]
+
+private theorem beq_event_one (o : PyOp) (thr x : Fl) (hx : x.notNan = true) :
+    beq (event o thr x) (fin 1) = o.apply x thr ∧ beq (event o thr x) (fin 0) = !o.apply x thr := by
+  unfold event
+  cases x <;> simp [isNan, notNan] at hx ⊢ <;> cases PyOp.apply o _ thr <;> simp [ofBool, beq]
+
+/-- **each count equals direct counting** with `op · thr` for the SUPPLIED threshold and operator — every
+    threshold (0, negative, NaN, infinite), each of the six operators, lists of any length — and
+    `tp + tn + fp + fn = total = number of pairs valid in both` -/
+theorem threshold_counts_eq_direct (dthr : Fl) (dop o : PyOp) (thr : Fl) (ps : List (Fl × Fl)) :
+    tableOfThreshold dthr dop ps (some thr) (some o) = Table.ofCounts (countSpec o thr ps) := by
+  have hpart := countBy_partition (fun p => o.apply p.1 thr) (fun p => o.apply p.2 thr) ps
+  unfold tableOfThreshold
+  have hev : (ps.map fun p => events_make_contingency_manager dthr dop p.1 p.2 (some thr) (some o)) =
+      ps.map fun p => (event o thr p.1, event o thr p.2) := by
+    apply List.map_congr_left; intro p _; exact events_eq_op ..
+  rw [hev]
+  unfold tableOfEvents
+  simp only [List.map_map, Function.comp_def]
+  have key : ∀ (m : Fl → Fl → Fl) (bf bo : Bool)
+      (hm : ∀ f o', IsEv f → IsEv o' → m f o' = if bothValid (f, o') then ofBool (beq f (fin (if bf then 1 else 0)) && beq o' (fin (if bo then 1 else 0))) else nan),
+      nansum (ps.map fun p => m (event o thr p.1) (event o thr p.2)) =
+        fin (((ps.filter fun p => bothValid p && ((if bf then o.apply p.1 thr else !o.apply p.1 thr) &&
+          (if bo then o.apply p.2 thr else !o.apply p.2 thr))).length : Nat) : Rat) := by
+    intro m bf bo hm
+    apply nansum_indicator _ bothValid
+    intro p
+    rw [hm _ _ (isEv_event o thr p.1) (isEv_event o thr p.2), bothValid_event]
+    by_cases hv : bothValid p = true
+    · have h1 := beq_event_one o thr p.1 (by unfold bothValid at hv; simp at hv; exact hv.1)
+      have h2 := beq_event_one o thr p.2 (by unfold bothValid at hv; simp at hv; exact hv.2)
+      cases bf <;> cases bo <;> simp [hv, h1.1, h1.2, h2.1, h2.2]
+    · simp only [Bool.not_eq_true] at hv; simp [hv]
+  have htp := key map_tp true true (by intro f o' hf ho; simpa using map_tp_indicator f o' hf ho)
+  have htn := key map_tn false false (by intro f o' hf ho; simpa using map_tn_indicator f o' hf ho)
+  have hfp := key map_fp true false (by intro f o' hf ho; simpa using map_fp_indicator f o' hf ho)
+  have hfn := key map_fn false true (by intro f o' hf ho; simpa using map_fn_indicator f o' hf ho)
+  simp only [if_true, Bool.false_eq_true, if_false] at htp htn hfp hfn
+  rw [htp, htn, hfp, hfn]
+  unfold Table.ofCounts countSpec
+  unfold countBy at hpart ⊢
+  simp only at hpart ⊢
+  simp only [add_fin]
+  congr 2
+  rw [← hpart]; push_cast; ring
+
+/-- `tp + fp + fn + tn = total = number of pairs valid in both`, any threshold, any operator -/
+theorem total_eq_valid_pairs (dthr : Fl) (dop o : PyOp) (thr : Fl) (ps : List (Fl × Fl)) :
+    let t := tableOfThreshold dthr dop ps (some thr) (some o)
+    t.total = fin (((ps.filter bothValid).length : Nat) : Rat) ∧
+    add (add (add t.tp t.fp) t.fn) t.tn = t.total := by
+  intro t
+  have h : t = Table.ofCounts (countSpec o thr ps) := threshold_counts_eq_direct dthr dop o thr ps
+  have hpart := countBy_partition (fun p => o.apply p.1 thr) (fun p => o.apply p.2 thr) ps
+  rw [h]
+  refine ⟨rfl, ?_⟩
+  unfold Table.ofCounts countSpec
+  simp only [add_fin]
+  congr 1
+  rw [← hpart]; push_cast; ring
+
+/-- with the defaults (nothing supplied) the same holds for the default threshold and operator -/
+theorem default_counts_eq_direct (dthr : Fl) (dop : PyOp) (ps : List (Fl × Fl)) :
+    tableOfThreshold dthr dop ps none none = Table.ofCounts (countSpec dop dthr ps) := by
+  rw [← threshold_counts_eq_direct dthr dop dop dthr ps]
+  unfold tableOfThreshold
+  congr 1
+
+section additivity
+local instance : Std.Associative Fl.add := ⟨Fl.add_assoc⟩
+local instance : Std.Commutative Fl.add := ⟨Fl.add_comm⟩
+
+/-- counts are additive under concatenation of the positions — for ALL event values -/
+theorem counts_append (xs ys : List (Fl × Fl)) :
+    tableOfEvents (xs ++ ys) = (tableOfEvents xs).add (tableOfEvents ys) := by
+  unfold tableOfEvents Table.add
+  simp only [List.map_append, nansum_append]
+  congr 1
+  ac_rfl
+
+theorem threshold_counts_append (dthr : Fl) (dop : PyOp) (thr : Option Fl) (o : Option PyOp) (xs ys : List (Fl × Fl)) :
+    tableOfThreshold dthr dop (xs ++ ys) thr o =
+      (tableOfThreshold dthr dop xs thr o).add (tableOfThreshold dthr dop ys thr o) := by
+  unfold tableOfThreshold; rw [List.map_append, counts_append]
+
+theorem counts_nil : tableOfEvents [] = Table.zero := by
+  unfold tableOfEvents Table.zero; simp [nansum_nil]
+
+/-- counts kept along a dimension (one table per row) sum to the fully reduced counts -/
+theorem counts_flatten (rows : List (List (Fl × Fl))) :
+    tableOfEvents rows.flatten = (rows.map tableOfEvents).foldr Table.add Table.zero := by
+  induction rows with
+  | nil => exact counts_nil
+  | cons r rs ih => rw [List.flatten_cons, counts_append, ih]; rfl
+
+theorem threshold_counts_flatten (dthr : Fl) (dop : PyOp) (thr : Option Fl) (o : Option PyOp)
+    (rows : List (List (Fl × Fl))) :
+    tableOfThreshold dthr dop rows.flatten thr o =
+      (rows.map fun r => tableOfThreshold dthr dop r thr o).foldr Table.add Table.zero := by
+  induction rows with
+  | nil => exact counts_nil
+  | cons r rs ih => rw [List.flatten_cons, threshold_counts_append, ih]; rfl
+
+end additivity
+
+/-! ## 7. `binary_discretise_proportion` over finite data: the mean of the discretised values is the share
+    of valid data in the event category. -/
+
+/-- mean (skipna) of a list of 0/1/NaN indicator values = (#ones) / (#valid); NaN when nothing is valid -/
+theorem nanmean_indicator {α : Type} (g : α → Fl) (v b : α → Bool)
+    (h : ∀ a, g a = if v a then ofBool (b a) else nan) (l : List α) :
+    nanmean (l.map g) = if (l.filter v).length = 0 then nan
+      else fin ((((l.filter fun a => v a && b a).length : Nat) : Rat) / (((l.filter v).length : Nat) : Rat)) := by
+  have hvalid : (valid (l.map g)).length = (l.filter v).length := by
+    unfold valid
+    induction l with
+    | nil => rfl
+    | cons a l ih =>
+      rw [List.map_cons, List.filter_cons, List.filter_cons, h a]
+      cases v a <;> cases b a <;> simp [ofBool, notNan, isNan, ih]
+  have hs := nansum_indicator g v b h l
+  unfold nansum at hs
+  unfold nanmean
+  simp only [List.isEmpty_iff, ← List.length_eq_zero_iff, hvalid, hs]
+  by_cases h0 : (l.filter v).length = 0
+  · simp [h0]
+  · simp only [h0, if_false, Fl.ofNat]
+    rw [div_fin _ _ (by exact_mod_cast h0)]
+
+private theorem mapM_ok {α β : Type} (f : α → Except String β) (g : α → β) (h : ∀ a, f a = .ok (g a)) (l : List α) :
+    l.mapM f = .ok (l.map g) := by
+  induction l with
+  | nil => rfl
+  | cons a l ih => rw [List.mapM_cons, h a, ih]; rfl
+
+private theorem nan_data_ok (c : Fl) (r : Rel) (t : Rat) (ht : 0 ≤ t) :
+    comparative_discretise nan c (.str r.str) (some (fin t)) = .ok nan := by
+  rw [cd_some _ _ _ t ht]
+  cases r <;>
+    simp [comparative_discretise_kernel, Rel.str, keys_ge, keys_gt, keys_le, keys_lt, keys_eq, keys_ne,
+      ekeys_eq, ekeys_ne, whereB, notNan, isNan] <;> rfl
+
+/-- data with missing values: `none` is NaN -/
+def ofOpt : Option Rat → Fl
+  | some q => fin q
+  | none => nan
+
+/-- **proportion = share**: for one finite threshold, any relation and tolerance `t ≥ 0`, the proportion is
+    (#valid data for which the relation holds) / (#valid data), NaN when no datum is valid -/
+theorem proportion_eq_share (r : Rel) (c t : Rat) (ht : 0 ≤ t) (qs : List (Option Rat)) :
+    Model.C08.proportion (qs.map ofOpt) [fin c] (.str r.str) (some (fin t)) =
+      .ok [if (qs.filter Option.isSome).length = 0 then nan
+           else fin ((((qs.filter fun q => q.isSome && (q.map fun x => holds r x c t).getD false).length : Nat) : Rat) /
+                     (((qs.filter Option.isSome).length : Nat) : Rat))] := by
+  have hpt : ∀ q : Option Rat, comparative_discretise (ofOpt q) (fin c) (.str r.str) (some (fin t)) =
+      .ok (if q.isSome then ofBool ((q.map fun x => holds r x c t).getD false) else nan) := by
+    intro q
+    cases q with
+    | none => exact nan_data_ok _ r t ht
+    | some x => simpa [ofOpt] using mode_table r x c t ht
+  unfold Model.C08.proportion
+  have hm : monotoneNondecr [fin c] = true := rfl
+  rw [nan_data_ok _ r t ht]
+  simp only [hm, Bool.not_true, Bool.false_eq_true, if_false, List.mapM_cons, List.mapM_nil, List.mapM_map]
+  rw [mapM_ok ((fun x => comparative_discretise x (fin c) (PyMode.str r.str) (some (fin t))) ∘ ofOpt) _ hpt qs]
+  simp only [bind, Except.bind, pure, Except.pure]
+  rw [nanmean_indicator _ Option.isSome (fun q => (q.map fun x => holds r x c t).getD false) (fun q => rfl) qs]
+
+example : Model.C08.proportion [fin 0, fin (1/2), nan, fin 1] [fin (1/2)] (.str ">=") (some (fin 0)) = .ok [fin (2/3)] := by
+  decide +kernel
 
 end SV.Props.C08
